@@ -221,7 +221,9 @@ fn pou_vars_and_body(rng: &mut Rng, n: &Names, is_function: bool, own: &str) -> 
     let a = rng.pick(&locals).clone();
     let b = rng.pick(&locals).clone();
     body.push_str(trivia(rng, n));
-    match rng.below(4) {
+    match rng.below(6) {
+        4 => body.push_str(&format!("  {a} := ({b} MOD 3) + {};\n", rng.below(9))),
+        5 => body.push_str(&format!("  IF ({a} > 3) AND NOT ({b} > 2) OR ({a} = 1) XOR ({b} = 2) THEN\n    {a} := 0;\n  END_IF;\n")),
         3 => body.push_str(&format!("  IF {a} > 3 THEN\n    {b} := 0;\n  END_IF {b} := {b} + 1;{}\n", if n.no_comments { "" } else { " (* same line *)" })),
         0 => body.push_str(&format!("  {a} := {b} + 1;\n")),
         1 => body.push_str(&format!(
@@ -244,6 +246,10 @@ fn gen_fb(rng: &mut Rng, n: &mut Names) -> Decl {
     let name = format!("Fb{k}");
     let has_in = rng.chance(2, 3);
     let mut text = format!("FUNCTION_BLOCK {name}\n");
+    if !n.no_comments && rng.chance(1, 6) {
+        // an OSCAT style description header (free text that the preprocessor blanks)
+        text.push_str(&format!("(*@KEY@:DESCRIPTION*)\nversion 1.{k} counts things; see manual\n(*@KEY@:END_DESCRIPTION*)\n"));
+    }
     if has_in {
         text.push_str("  VAR_INPUT\n    i1 : BOOL;\n  END_VAR\n");
     }
@@ -301,6 +307,11 @@ fn gen_config(rng: &mut Rng, n: &mut Names, bad_task: bool, const_global: bool) 
 }
 
 fn gen_one(rng: &mut Rng, n: &mut Names) -> Decl {
+    if !n.no_comments && rng.chance(1, 40) {
+        // a "declaration" that is nothing but a comment (a file may consist of it alone)
+        let k = n.fresh();
+        return decl("comment_only", &format!("Note{k}"), format!("(* note {k}: nothing is declared here *)\n"));
+    }
     loop {
         let d = match rng.below(12) {
             0 | 1 => Some(gen_enum(rng, n)),
@@ -321,6 +332,17 @@ fn gen_one(rng: &mut Rng, n: &mut Names) -> Decl {
         if let Some(d) = d {
             return d;
         }
+    }
+}
+
+/// A second, self-contained fault of the rule stage (used to build double-fault modules).
+pub fn second_fault(rng: &mut Rng, unique: usize) -> Decl {
+    let k = 900 + unique;
+    match rng.below(4) {
+        0 => decl("fault", &format!("St{k}"), format!("TYPE\n  St{k} : STRUCT\n    g0 : INT;\n    G0 : BOOL;\n  END_STRUCT;\nEND_TYPE\n")),
+        1 => decl("fault", &format!("En{k}"), format!("TYPE\n  En{k} : (XX{k}, YY{k}, xx{k}) := XX{k};\nEND_TYPE\n")),
+        2 => decl("fault", &format!("Fb{k}"), format!("FUNCTION_BLOCK Fb{k}\n  VAR CONSTANT\n    cnt : INT;\n  END_VAR\nEND_FUNCTION_BLOCK\n")),
+        _ => decl("fault", &format!("Sr{k}"), format!("TYPE\n  Sr{k} : INT (9..1);\nEND_TYPE\n")),
     }
 }
 
@@ -354,6 +376,7 @@ pub const FAULT_KINDS: &[&str] = &[
     "global_not_external",
     "invoke_undeclared_instance",
     "task_in_other_config",
+    "unsupported_stdlib_type",
 ];
 
 /// Fault kinds whose faulty declaration(s) fail on their own (no other declaration needed).
@@ -551,6 +574,10 @@ pub fn gen_faulty(rng: &mut Rng, size: usize, kind: &str) -> World {
                 &mut decls,
                 decl("fault", &format!("Cfg{k2}"), format!("CONFIGURATION Cfg{k2}\n  RESOURCE res{k2} ON PLC\n    TASK own{k2}(INTERVAL := T#50ms, PRIORITY := 2);\n    PROGRAM inst{k2} WITH {other_task} : plc_prg;\n  END_RESOURCE\nEND_CONFIGURATION\n")),
             );
+        }
+        "unsupported_stdlib_type" => {
+            let std = *rng.pick(&["TON", "TOF", "TP", "CTU", "SR", "R_TRIG"]);
+            push(&mut decls, decl("fault", &format!("Fb{k}"), format!("FUNCTION_BLOCK Fb{k}\n  VAR\n    t : {std};\n    cnt : INT;\n  END_VAR\n  cnt := 1;\nEND_FUNCTION_BLOCK\n")));
         }
         "alias_unknown" => push(&mut decls, decl("fault", &format!("Al{k}"), format!("TYPE\n  Al{k} : NoSuchType{k};\nEND_TYPE\n"))),
         other => panic!("unknown fault kind {other}"),
